@@ -41,8 +41,7 @@ def handle (line : String) : String :=
     match fromHex h with
     | none => "bad-hex"
     | some b =>
-      let d := Src.ofArray b.toArray
-      let (lexs, stop, _) := lexAll d (parseOracle orc) (d.size + 2) Sc.init []
+      let (lexs, stop, _) := scanFile b (parseOracle orc)
       let body := String.intercalate " " (lexs.map showLex)
       let tail := match stop with
         | none => "end"
